@@ -44,6 +44,21 @@ def cases(ctx):
             out.append(("gcd", {"dt": dt, "level": 8, "order": 0, "gcds": 1, "chunks": [xs], "kinds": ["gcd-near-2^%d" % e], "drain": 0}))
             xs = [G.from_signed_val(dt, v) for v in [a, a + w, a + 3 * w, a + w]]
             out.append(("gcd", {"dt": dt, "level": 8, "order": 0, "gcds": 1, "chunks": [xs], "kinds": ["gcd-near-2^%d" % e], "drain": 0}))
+    # floats incl. NaN payloads: single-valued NaN ranges next to each other get merged at high levels
+    for _ in range(40 if ctx.quick else 400):
+        dt = rng.choice(["f32", "f64"])
+        W = C.DTYPES[dt][1]
+        e = 8 if W == 32 else 11
+        m = W - 1 - e
+        inf = ((1 << e) - 1) << m
+        pool = []
+        for _k in range(rng.range(2, 6)):
+            s_ = rng.choice([0, 1 << (W - 1)])
+            pool.append(s_ | inf | rng.choice([1, (1 << m) - 1, 1 << (m - 1), rng.bits(m) | 1]))
+        if rng.chance(1, 2):
+            pool.append(rng.bits(W))
+        xs = [rng.choice(pool) for _ in range(rng.choice([2, 3, 5, 20, 200]))]
+        out.append(("gcd", {"dt": dt, "level": rng.choice([8, 10, 12]), "order": 0, "gcds": 1, "chunks": [xs], "kinds": ["nan-payloads"], "drain": 0}))
     # (2) sparse chunks
     for _ in range(120 if ctx.quick else 1200):
         dt = rng.choice(S.ALL_DT)
@@ -117,6 +132,8 @@ def run(ctx):
         P, W, kind, pps = C.DTYPES[c["dt"]]
         Wp = 1 if kind == "bool" else W
         for ch in r["chunks"]:
+            if ch.get("gcdexact") == "1" and "divisor" in ch.get("explains", "ok"):
+                ctx.disagree("enc(explains)", line, ch["explains"], r["impl"][:300], "recorded divisor differs from the training model's although it is exact")
             if ch.get("gcdexact") != "1":
                 ctx.violation("recorded divisor of a multi-valued range is not the exact GCD (nor a justified 1)", line, "gcdexact=1", r["impl"][:500] + " :: " + r["model"][:400])
             if what == "sparse":
